@@ -215,6 +215,10 @@ class Abs:
             if dn in ("np.pi", "numpy.pi", "math.pi"):
                 from .algebra import sym as _sym
                 return _sym("pi")
+            if dn in ("sympy.S.Zero", "S.Zero", "sympy.S.One", "S.One", "sympy.S.Half", "S.Half", "sympy.S.NegativeOne", "S.NegativeOne") and dn.split(".")[0] not in self.env:
+                from .algebra import Rat as _Rat
+                from fractions import Fraction as _Fr
+                return _Rat.const({"Zero": 0, "One": 1, "Half": _Fr(1, 2), "NegativeOne": -1}[dn.rsplit(".", 1)[1]])
             if dn in ("np.inf", "numpy.inf", "math.inf", "np.Inf"):
                 return float("inf")
             if dn in ("np.newaxis", "numpy.newaxis"):
@@ -237,7 +241,11 @@ class Abs:
                 try:
                     v = getattr(base, e.attr)
                 except AttributeError:
-                    raise Raised("AttributeError(%s)" % e.attr)
+                    # an attribute the *model* of a library object does not have: the real object may well have it - a modelling gap,
+                    # unless the model names it as absent on the real thing
+                    if e.attr in getattr(base, "_abs_absent", ()):
+                        raise Raised("AttributeError(%s)" % e.attr)
+                    raise Undecided("attribute %s of the %s model is not modelled" % (e.attr, type(base).__name__))
                 return ("py", v) if callable(v) and not getattr(v, "_abs_native", False) else v
             return self.getattr(base, e.attr, e)
         if isinstance(e, ast.Subscript):
@@ -328,7 +336,23 @@ class Abs:
         if isinstance(e, ast.Lambda):
             return ("lambda", e, dict(self.env))
         if isinstance(e, ast.JoinedStr):
-            return "<fstring>"
+            # the text for real when every interpolated value has a known text form, an opaque marker otherwise (messages)
+            parts = []
+            for v in e.values:
+                if isinstance(v, ast.Constant):
+                    parts.append(str(v.value))
+                    continue
+                if not isinstance(v, ast.FormattedValue) or v.format_spec is not None:
+                    return "<formatted>"
+                try:
+                    val = self.ev(v.value)
+                except Undecided:
+                    return "<formatted>"
+                txt = self._text(val)
+                if txt is None:
+                    return "<formatted>"
+                parts.append(repr(txt) if v.conversion == ord("r") and isinstance(val, str) else txt)
+            return "".join(parts)
         raise Undecided("expression %s" % type(e).__name__)
 
     def _native_key(self, sl):
@@ -502,7 +526,7 @@ class Abs:
 
     def _run_source(self, text, mode, env=None):
         """exec / eval of source text built by the analysed code, in the current local namespace"""
-        if not isinstance(text, str) or "<formatted>" in text:
+        if not isinstance(text, str) or "<formatted>" in text or "<fstring>" in text:
             raise Undecided("exec/eval of text the interpreter could not reconstruct")
         try:
             tree = ast.parse(text.strip(), mode="eval" if mode == "eval" else "exec")
@@ -651,6 +675,13 @@ class Abs:
                 raise Raised("%s(%s)" % (type(ex).__name__, ex))
         if dn == "bool" and len(args) == 1:
             return self.truth(args[0])
+        if dn == "divmod" and len(args) == 2 and dn not in self.env:
+            if all(isinstance(a, (int, float)) and not isinstance(a, bool) for a in args):
+                try:
+                    return divmod(*args)
+                except ZeroDivisionError as ex:
+                    raise Raised("ZeroDivisionError(%s)" % ex)
+            raise Undecided("divmod of %r" % (args,))
         if dn == "object" and not args:
             self._obj_counter = getattr(self, "_obj_counter", 0) + 1
             return Tok("object#%d" % self._obj_counter, "obj")
